@@ -32,7 +32,7 @@ Proof. exact (count_nul_no_oob get32 get32_len get32_nul_some get32_nul_len get3
 Print Assumptions C11_utf32_nul_reads_inside.
 
 (* ---- decoding is exact: every scalar round-trips through its canonical encoding, whatever follows *)
-Theorem C11_utf8_roundtrip : forall u rest, u < 0x110000 ->
+Theorem C11_utf8_roundtrip : forall u rest, u < 0x110000 /\ ~ (0xD800 <= u <= 0xDFFF) ->
   get8 (put8 u ++ rest) = Some (mkgot u (length (put8 u)) true).
 Proof. exact get8_put8. Qed.
 Print Assumptions C11_utf8_roundtrip.
@@ -42,13 +42,22 @@ Theorem C11_utf16_roundtrip : forall u rest, u < 0x110000 /\ ~ (0xD800 <= u <= 0
 Proof. exact get16_put16. Qed.
 Print Assumptions C11_utf16_roundtrip.
 
-(* nothing above U+10FFFF is ever produced by a successful UTF-8 decode *)
-Theorem C11_utf8_range : forall m g, get8 m = Some g -> g_ok g = true -> g_usv g < 0x110000.
+(* nothing above U+10FFFF and no surrogate code point is ever produced by a successful UTF-8 decode *)
+Theorem C11_utf8_range : forall m g, get8 m = Some g -> g_ok g = true -> g_usv g < 0x110000 /\ ~ (0xD800 <= g_usv g <= 0xDFFF).
 Proof. exact get8_ok_below_limit. Qed.
 Print Assumptions C11_utf8_range.
 
+(* a surrogate code point is not a character in any encoding form: written out as three UTF-8 bytes (ED A0..BF xx) or as one UTF-32
+   unit it decodes to U+FFFD with the error flag, as a lone surrogate does in UTF-16 (true of the repaired decoders: known_findings.txt) *)
+Theorem C11_utf8_surrogates_refused : forall u, 0xD800 <= u <= 0xDFFF -> exists l, get8 (put8 u) = Some (mkgot 0xFFFD l false).
+Proof. exact get8_surrogate. Qed.
+Print Assumptions C11_utf8_surrogates_refused.
+Theorem C11_utf32_surrogates_refused : forall u rest, 0xD800 <= u <= 0xDFFF -> get32 (u :: rest) = Some (mkgot 0xFFFD 1 false).
+Proof. exact get32_surrogate. Qed.
+Print Assumptions C11_utf32_surrogates_refused.
+
 (* ---- well-formed text that does not end in a truncated sequence: exact count, *pError == NULL *)
-Theorem C11_utf8_count_exact : forall us, Forall (fun u => u < 0x110000 /\ u <> 0) us ->
+Theorem C11_utf8_count_exact : forall us, Forall (fun u => (u < 0x110000 /\ ~ (0xD800 <= u <= 0xDFFF)) /\ u <> 0) us ->
   count_end get8 validate8 (enc_all put8 us) = Some (length us, None).
 Proof. exact (count_end_exact get8 validate8 put8 valid8 get8_put8 put8_len validate8_put8 eq_refl). Qed.
 Print Assumptions C11_utf8_count_exact.
@@ -58,13 +67,13 @@ Theorem C11_utf16_count_exact : forall us, Forall (fun u => valid16 u /\ u <> 0)
 Proof. exact (count_end_exact get16 validate16 put16 valid16 get16_put16 put16_len validate16_put16 eq_refl). Qed.
 Print Assumptions C11_utf16_count_exact.
 
-Theorem C11_utf32_count_exact : forall us, Forall (fun u => u < 0x110000 /\ u <> 0) us ->
+Theorem C11_utf32_count_exact : forall us, Forall (fun u => (u < 0x110000 /\ ~ (0xD800 <= u <= 0xDFFF)) /\ u <> 0) us ->
   count_end get32 validate32 (enc_all put32 us) = Some (length us, None).
 Proof. exact (count_end_exact get32 validate32 put32 valid32 get32_put32 put32_len validate32_put32 eq_refl). Qed.
 Print Assumptions C11_utf32_count_exact.
 
 (* ... and in the NUL-terminated form, whatever follows the terminator *)
-Theorem C11_utf8_count_exact_nul : forall us rest, Forall (fun u => u < 0x110000 /\ u <> 0) us ->
+Theorem C11_utf8_count_exact_nul : forall us rest, Forall (fun u => (u < 0x110000 /\ ~ (0xD800 <= u <= 0xDFFF)) /\ u <> 0) us ->
   count_nul get8 (enc_all put8 us ++ 0 :: rest) = Some (length us, None).
 Proof. exact (count_nul_exact get8 put8 valid8 get8_nul_zero get8_put8 put8_len). Qed.
 Print Assumptions C11_utf8_count_exact_nul.
@@ -76,7 +85,7 @@ Print Assumptions C11_utf16_count_exact_nul.
 
 (* ---- ill-formed text: the error is reported at the first ill-formed sequence and the count is the number
         of well-formed characters before it (so in particular it does not exceed that number) *)
-Theorem C11_utf8_error_reported : forall us bad g, Forall (fun u => u < 0x110000 /\ u <> 0) us ->
+Theorem C11_utf8_error_reported : forall us bad g, Forall (fun u => (u < 0x110000 /\ ~ (0xD800 <= u <= 0xDFFF)) /\ u <> 0) us ->
   get8 bad = Some g -> g_ok g = false -> validate8 (enc_all put8 us ++ bad) = true ->
   count_end get8 validate8 (enc_all put8 us ++ bad) = Some (length us, Some (length (enc_all put8 us))).
 Proof. exact (count_end_error get8 validate8 put8 valid8 get8_len get8_put8 put8_len). Qed.
